@@ -349,13 +349,19 @@ pub fn write_object_identifier(oid: &[u8], s: &mut dyn Write) ->RdpResult<()> {
 /// ```
 /// use std::io::Cursor;
 /// use rdp::core::per::read_numeric_string;
-/// let mut s = Cursor::new(vec![2, 0, 0, 0]);
-/// assert_eq!(read_numeric_string(0, &mut s).unwrap(), [0, 0, 0]);
+/// let mut s = Cursor::new(vec![2, 0x12, 0x30]);
+/// assert_eq!(read_numeric_string(1, &mut s).unwrap(), b"123");
 /// ```
 pub fn read_numeric_string(minimum: usize, s: &mut dyn Read) -> RdpResult<Vec<u8>> {
-    let length = read_length(s)?;
-    let mut result = vec![0 as u8; length as usize + minimum + 1];
-    result.read(s)?;
+    // number of digits; two digits per octet
+    let length = read_length(s)? as usize + minimum;
+    let mut packed = vec![0 as u8; (length + 1) / 2];
+    s.read_exact(&mut packed)?;
+    let mut result = Vec::with_capacity(length);
+    for i in 0..length {
+        let digit = if i % 2 == 0 { packed[i / 2] >> 4 } else { packed[i / 2] & 0xf };
+        result.push(digit + 0x30);
+    }
     Ok(result)
 }
 
